@@ -204,7 +204,7 @@ pub fn predicate() -> BoxedStrategy<(usize, Value)> {
 }
 
 pub fn statement_naive() -> BoxedStrategy<Value> {
-    (link_spec(true), prop_oneof![4 => Just("link".to_string()), 1 => short_text()], any::<bool>())
+    (link_spec(true), prop_oneof![6 => Just("link".to_string()), 1 => Just("https://in-toto.io/Statement/v0.1".to_string()), 1 => short_text()], any::<bool>())
         .prop_map(|(l, typ, drop_env)| {
             let mut m = Map::new();
             m.insert("_type".into(), json!(typ));
@@ -223,7 +223,7 @@ pub fn statement_naive() -> BoxedStrategy<Value> {
 
 /// v0.1 statement; `declared` may or may not match the embedded predicate's format
 pub fn statement_v01() -> BoxedStrategy<(Value, usize, usize)> {
-    (predicate(), artifacts(3, true), prop_oneof![5 => Just(None), 3 => (0usize..3).prop_map(Some)], prop_oneof![4 => Just("https://in-toto.io/Statement/v0.1".to_string()), 1 => short_text()])
+    (predicate(), artifacts(3, true), prop_oneof![5 => Just(None), 3 => (0usize..3).prop_map(Some)], prop_oneof![6 => Just("https://in-toto.io/Statement/v0.1".to_string()), 1 => Just("link".to_string()), 1 => short_text()])
         .prop_map(|((fmt, pred), subject, other, typ)| {
             let declared = other.unwrap_or(fmt);
             (
